@@ -39,7 +39,7 @@ import (
 //	           era:<1|2|3>    only the hash is known (mainnet vectors) -> hook VerifValidateHashAndProof (same arm of the dispatch)
 //	accumulators are sparse:  <length>:<index>=<hex>/<index>=<hex>   (all other entries are 32 zero bytes)
 //	oracle     nil | err | sparse list of block summary roots the oracle returns
-//	truth      what the generator knows: honest / corrupt-<node> / wronghash / wrongpos-.. / wrongera-.. / size-.. / oor-.. / random / vector / witness
+//	truth      what the generator knows: honest / corrupt-<node> / wronghash / wrongpos-.. / wrongslot-.. / wrongera-.. / size-.. / oor-.. / random / vector / witness
 //
 //	embedded <nepochs> <nroots> | ok        lengths of the embedded accumulators (hypothesis of the never-panic theorem)
 var c03errs = []struct {
@@ -117,7 +117,9 @@ func (o *c03oracle) GetHistoricalSummaries(epoch uint64) (capella.HistoricalSumm
 func (o *c03oracle) GetBlockHeaderByHash(hash []byte) (*types.Header, error) {
 	return nil, errors.New("verif oracle error")
 }
-func (o *c03oracle) GetFinalizedStateRoot() ([]byte, error) { return nil, errors.New("verif oracle error") }
+func (o *c03oracle) GetFinalizedStateRoot() ([]byte, error) {
+	return nil, errors.New("verif oracle error")
+}
 
 func c03summaries(l [][]byte) []capella.HistoricalSummary {
 	out := make([]capella.HistoricalSummary, len(l))
@@ -562,6 +564,68 @@ func (g c03gen) wrongEra() {
 	}
 }
 
+// an honest proof whose slot field is replaced by another slot: whole periods away (same record index, so the beacon branch
+// still folds to the same value - only the accumulator lookup can tell), across the Capella start (uint64 wrap of the summary
+// index) and across the end of the accumulator.  Nothing but the claimed slot changes; the proof must be rejected.
+func (g c03gen) wrongSlot() {
+	c := g.c
+	cap0 := c03capellaStart()
+	reslot := func(k c03case, claimed uint64, tag string) {
+		m := k
+		m.proof = append([]byte{}, k.proof...)
+		binary.LittleEndian.PutUint64(m.proof[len(m.proof)-8:], claimed)
+		m.truth = "wrongslot-" + tag
+		c03exec(c, m)
+	}
+	ks := []uint64{1, 2, 100, 758, 1 << 40}
+	for _, era := range []int{2, 3} {
+		// honest in the FIRST summary period (index 0): every slot congruent mod 8192 below the fork wraps to a huge index
+		for _, oracle := range []string{"nil", "3:"} {
+			s := cap0 + 1 + g.r.U64()%8190
+			acc := uint64(643)
+			if oracle != "nil" {
+				acc = 0 // the summary comes from the oracle's list, the cache is empty
+			}
+			k := g.postMerge(g.randNumber(era), era, s, acc, oracle, "honest")
+			c03exec(c, k)
+			for _, d := range ks {
+				reslot(k, s-d*8192, fmt.Sprintf("minus-%d-periods", d))
+				if oracle == "nil" && (d == 1 || d == 758 || d == 1<<40) {
+					reslot(k, s+d*8192, fmt.Sprintf("plus-%d-periods", d))
+				}
+			}
+		}
+		// exactly at / just above the Capella start, claimed one period earlier; record 8192-off claimed at capella_start - off
+		for _, s := range []uint64{cap0, cap0 + 1, cap0 + 8192 - 1, cap0 + 8192 - 77, cap0 + 8192 - 8191} {
+			k := g.postMerge(g.randNumber(era), era, s, 2, "nil", "honest")
+			c03exec(c, k)
+			reslot(k, s-8192, fmt.Sprintf("below-capella-start-by-%d", cap0-(s-8192)))
+			if s == cap0 {
+				reslot(k, s+8192, "next-period")
+			}
+		}
+		// honest in the LAST cached summary: the next periods are beyond the accumulator, the previous ones hold other roots
+		last := uint64(642)
+		s := c03slot(era, last, g.r.U64()%8192)
+		k := g.postMerge(g.randNumber(era), era, s, last+1, "nil", "honest")
+		for _, d := range []uint64{1, 100} {
+			reslot(k, s+d*8192, fmt.Sprintf("past-end-plus-%d", d))
+			reslot(k, s-d*8192, fmt.Sprintf("last-minus-%d", d))
+		}
+		reslot(k, s-(last+1)*8192, "last-to-below-capella-start")
+	}
+	// historical-roots era: across both ends of the accumulator
+	for _, idx := range []uint64{0, 757} {
+		s := c03slot(1, idx, g.r.U64()%8192)
+		k := g.postMerge(g.randNumber(1), 1, s, 758, "nil", "honest")
+		c03exec(c, k)
+		for _, d := range []uint64{1, 758, 1 << 40} {
+			reslot(k, s+d*8192, fmt.Sprintf("roots-%d-plus-%d-periods", idx, d))
+			reslot(k, s-d*8192, fmt.Sprintf("roots-%d-minus-%d-periods", idx, d))
+		}
+	}
+}
+
 func (g c03gen) sizes() {
 	c := g.c
 	for era := 0; era <= 3; era++ {
@@ -687,6 +751,21 @@ func (g c03gen) vectors(maxPre int) {
 			m.proof[g.r.Intn(len(proof)-8)] ^= 0x10
 			m.truth = "corrupt-vector"
 			c03exec(c, m)
+			// the real proof claiming another slot with the same record index (slot -+ 8192): block 17034870 (slot 6209538, first
+			// summary period) then claims slot 6201346, a slot before the Capella fork that no summary commits to
+			for _, d := range []uint64{^uint64(8191), 8192} { // -8192 (two's complement), +8192
+				w := k
+				claimed := v.slot + d
+				w.proof = append([]byte{}, proof...)
+				binary.LittleEndian.PutUint64(w.proof[len(proof)-8:], claimed)
+				if ed.era == 1 {
+					w.roots = proj(roots, claimed/8192)
+				} else {
+					w.sums = proj(sums, (claimed-c03capellaStart())/8192)
+				}
+				w.truth = fmt.Sprintf("wrongslot-vector-%d", claimed)
+				c03exec(c, w)
+			}
 		}
 	}
 }
@@ -811,7 +890,7 @@ func runC03(c *Ctx) {
 	thorough := c.Tier == "thorough"
 	c03embedded(c)
 	g.witness()
-	maxPre, nRandom, nSweeps, nEpochs, stride := 6, 40, 1, 2, 2
+	maxPre, nRandom, nSweeps, nEpochs, stride := 6, 30, 1, 2, 2
 	if thorough {
 		maxPre, nRandom, nSweeps, nEpochs, stride = 1000, 1500, 12, 24, 1
 	}
@@ -821,6 +900,7 @@ func runC03(c *Ctx) {
 	g.vectors(maxPre)
 	g.boundaries()
 	g.wrongEra()
+	g.wrongSlot()
 	g.sizes()
 	for i := 0; i < nSweeps; i++ {
 		st := stride
